@@ -470,6 +470,122 @@ func runC14(c *engine.Ctx) {
 
 	// ---- R6 teardown ----
 	c.Rule("R6", "a closed control connection ends the dispatcher's read loop (doneCh closed on any read error) and the server-side teardown is complete")
+	checkReadLoopEndsBody(c)
+	checkWorkerTeardown(c)
+	_ = types.Universe
+
+	// ---- R7 closing the control connection wakes its reader on every transport (shared with C01.R10): the heartbeat
+	// watchdog tears a session down by closing the connection; over QUIC that works only if Close aborts the receive side ----
+	checkGracefulClose(c, "R7")
+
+	// ---- R8 the late cleanup of a replaced session never removes its successor (shared with C12.R2): otherwise the
+	// healed session looks alive but every work connection is refused until the next connection loss ----
+	checkDelIfSame(c, "R8")
+
+	// ---- R9 a refused or unanswered registration is retried after its timeout (shared with C19.R4) ----
+	c.Rule("R9", "every store of a phase constant to WorkingStatus.Phase happens on paths that restrict the current phase to the legal predecessors of that constant (a start error is retried after startErrTimeout, a lost answer after waitResponseTimeout)")
+	checkPhaseStores(c)
+
+	// ---- R10 ----
+	checkOIDCSubjects(c, "R10")
+	// ---- R11 ----
+	checkLocalStartFailure(c, "R11")
+}
+
+// checkOIDCSubjects: the OIDC verifier is shared by all sessions of the server; VerifyLogin records the subject of every
+// login and VerifyPing / VerifyNewWorkConn accept a subject that is in that set. The set may only grow by appending to
+// itself: replacing it with the latest subject makes every other session's valid heartbeats fail.
+func checkOIDCSubjects(c *engine.Ctx, rule string) {
+	c.Rule(rule, "OidcAuthConsumer.VerifyLogin extends subjectsFromLogin by appending to the full existing slice (never truncates or replaces it)")
+	f := fn(c, "pkg/auth.OidcAuthConsumer.VerifyLogin")
+	sf := field(c, "pkg/auth", "OidcAuthConsumer", "subjectsFromLogin")
+	if f == nil || sf == nil {
+		return
+	}
+	n := 0
+	engine.ForEachInstr(f, func(in ssa.Instruction) {
+		st, ok := in.(*ssa.Store)
+		if !ok {
+			return
+		}
+		if lf, _ := engine.LoadedField(st.Addr); lf != sf {
+			return
+		}
+		n++
+		okApp := false
+		if call, ok := st.Val.(*ssa.Call); ok {
+			if b, ok := call.Call.Value.(*ssa.Builtin); ok && b.Name() == "append" {
+				// first operand: the field itself, unsliced
+				if lf, _ := engine.LoadedField(call.Call.Args[0]); lf == sf {
+					okApp = true
+				}
+			}
+		}
+		c.Check(okApp, "pkg/auth.OidcAuthConsumer.VerifyLogin>subjects", in.Pos(), 1, []string{"stored: " + engine.Describe(st.Val)},
+			"the set of logged-in subjects is extended with append(subjectsFromLogin, …)")
+	})
+	c.Floor(n, 1)
+}
+
+// checkLocalStartFailure (C14.R11 = C19.R9): when the server accepted a registration but the local side cannot start
+// (Proxy.Run fails), the wrapper withdraws the registration (close → CloseProxy) before it records the start error, and it
+// never becomes 'running' on such a path; otherwise the server keeps the name and every retry is answered 'already exists'.
+func checkLocalStartFailure(c *engine.Ctx, rule string) {
+	c.Rule(rule, "Wrapper.SetRunningStatus: on every path where Proxy.Run returned an error the registration is withdrawn (close) before the function returns, and the phase does not become 'running'")
+	f := fn(c, "client/proxy.Wrapper.SetRunningStatus")
+	runO := method(c, "client/proxy", "Proxy", "Run")
+	closeO := method(c, "client/proxy", "Wrapper", "close")
+	phaseF := field(c, "client/proxy", "WorkingStatus", "Phase")
+	if f == nil || runO == nil || closeO == nil || phaseF == nil {
+		return
+	}
+	n := 0
+	for _, rc := range engine.CallsTo(f, runO) {
+		n++
+		rv := rc.Value()
+		c.AllPaths("client/proxy.Wrapper.SetRunningStatus>local-start-failure", engine.PathCheck{Fn: f, From: rc, Sink: engine.IsReturn,
+			Event: func(in ssa.Instruction) string {
+				if engine.IsCallTo(in, closeO) {
+					return "close"
+				}
+				if st, ok := in.(*ssa.Store); ok {
+					if lf, _ := engine.LoadedField(st.Addr); lf == phaseF {
+						if s, ok := engine.ConstString(st.Val); ok && s == "running" {
+							return "running"
+						}
+					}
+				}
+				return ""
+			},
+			Pred: func(st *engine.PathState) string {
+				isNil, known := st.IsNil(func(v ssa.Value) bool { return rv != nil && v == rv })
+				if !known {
+					return "the result of Proxy.Run is not examined"
+				}
+				if isNil {
+					return ""
+				}
+				if st.HasEvent("running") {
+					return "the proxy is reported running although its local start failed"
+				}
+				if !st.HasEvent("close") {
+					return "the local start failed and the registration the server already accepted is not withdrawn: the name stays taken and every retry is refused"
+				}
+				return ""
+			}}, "Run error ⇒ close, never running")
+	}
+	c.Floor(n, 1)
+}
+
+// checkReadLoopEnds (C17.R11 = the first half of C14.R6): any error of ReadMsg — EOF, an oversized frame, an unknown type
+// byte, undecodable JSON — ends the dispatcher's read loop and closes doneCh. After a framing or type error the stream
+// position is undefined, so "skip and continue" would decode garbage as messages.
+func checkReadLoopEnds(c *engine.Ctx, rule string) {
+	c.Rule(rule, "Dispatcher.readLoop: every error returned by ReadMsg (whatever its kind) closes doneCh and ends the loop; the loop ends only on such an error")
+	checkReadLoopEndsBody(c)
+}
+
+func checkReadLoopEndsBody(c *engine.Ctx) {
 	if rl := fn(c, "pkg/msg.Dispatcher.readLoop"); rl != nil {
 		readMsg := funcObj(c, "pkg/msg", "ReadMsg")
 		doneF := field(c, "pkg/msg", "Dispatcher", "doneCh")
@@ -503,18 +619,4 @@ func runC14(c *engine.Ctx) {
 				}}, "read error ⇒ doneCh closed and loop ends")
 		}
 	}
-	checkWorkerTeardown(c)
-	_ = types.Universe
-
-	// ---- R7 closing the control connection wakes its reader on every transport (shared with C01.R10): the heartbeat
-	// watchdog tears a session down by closing the connection; over QUIC that works only if Close aborts the receive side ----
-	checkGracefulClose(c, "R7")
-
-	// ---- R8 the late cleanup of a replaced session never removes its successor (shared with C12.R2): otherwise the
-	// healed session looks alive but every work connection is refused until the next connection loss ----
-	checkDelIfSame(c, "R8")
-
-	// ---- R9 a refused or unanswered registration is retried after its timeout (shared with C19.R4) ----
-	c.Rule("R9", "every store of a phase constant to WorkingStatus.Phase happens on paths that restrict the current phase to the legal predecessors of that constant (a start error is retried after startErrTimeout, a lost answer after waitResponseTimeout)")
-	checkPhaseStores(c)
 }
